@@ -153,6 +153,8 @@ def main(run, tier):
               'calmjs.parse.ruletypes'):
         run.function(f, scratch.sha256_file(scratch.module_path(f))[:16])
     run.floor = 300
+    from . import printfwd
+    printfwd.add(run, tier)
     # ---- E2: what is printed for each production (order and presence of its tokens and children)
     from . import printobl
     printobl.print_obligations(run, g, ('minify', 'minify+drop_semi'))
